@@ -54,6 +54,7 @@ def main():
                 env = dict(os.environ)
                 env["AFKAK_SRC"] = scratch
                 env["VERIF_NO_EVIDENCE"] = "1"
+                env["VERIF_NO_SHRINK"] = "1"
                 p = subprocess.run([os.path.join(ROOT, "bin", "check"), prop, "quick", "--scale=" + scale],
                                    capture_output=True, text=True, env=env, timeout=1800)
                 sigs = [l for l in p.stdout.splitlines() if l.startswith("violation:")]
